@@ -1,6 +1,6 @@
 (** Entry points used by the correspondence driver: one model, one correspondence
     predicate and one oracle per case family.  Definitions only. *)
-From TD Require Import Base.Prelude Base.Codec Model.Hist Spec.HistSpec Model.IterRun Spec.Ideal Model.GeomRun Spec.GeomSpec Model.OpsRun Spec.OpsSpec Model.Serde Model.Conv Spec.ConvSpec.
+From TD Require Import Base.Prelude Base.Codec Model.Hist Spec.HistSpec Model.IterRun Spec.Ideal Model.GeomRun Spec.GeomSpec Model.OpsRun Spec.OpsSpec Model.Serde Model.Conv Spec.ConvSpec Model.BigIterRun Spec.BigIterSpec.
 
 (** case families (which harness runner produced the case) *)
 Definition FAM_HIST : N := 1.
@@ -12,6 +12,7 @@ Definition FAM_OPS : N := 6.
 Definition FAM_SERDE : N := 7.
 Definition FAM_ROUNDTRIP : N := 8.
 Definition FAM_CONV : N := 9.
+Definition FAM_BIGITER : N := 10.
 
 Definition model (fam : N) (inp : list N) : list N :=
   if (fam =? FAM_HIST)%N then hist_model inp
@@ -23,6 +24,7 @@ Definition model (fam : N) (inp : list N) : list N :=
   else if (fam =? FAM_SERDE)%N then serde_model inp
   else if (fam =? FAM_ROUNDTRIP)%N then roundtrip_model inp
   else if (fam =? FAM_CONV)%N then conv_model inp
+  else if (fam =? FAM_BIGITER)%N then bigiter_model inp
   else BAD_CASE.
 
 (** correspondence: the implementation's observation equals the model's prediction *)
@@ -43,4 +45,5 @@ Definition oracle (prop fam : N) (inp obs : list N) : bool :=
   else if (fam =? FAM_SERDE)%N then oracle_serde inp obs
   else if (fam =? FAM_ROUNDTRIP)%N then oracle_roundtrip inp obs
   else if (fam =? FAM_CONV)%N then oracle_conv inp obs
+  else if (fam =? FAM_BIGITER)%N then oracle_bigiter inp obs
   else false.
